@@ -1,6 +1,7 @@
 package main
 
 import (
+	"os"
 	"fmt"
 	"go/token"
 	"go/types"
@@ -467,7 +468,11 @@ func (ex *Exec) applyContractSig(fr *Frame, ins ssa.Instruction, c *Contract, fn
 	env.lenient = true
 	for _, en := range c.Ensures {
 		// postconditions that talk about the callee's locals say nothing to a caller
-		ex.assume(ex.softBool(en.E, env))
+		t := ex.softBool(en.E, env)
+		if os.Getenv("GOVC_DEBUG") != "" && strings.Contains(cname, os.Getenv("GOVC_DEBUG")) {
+			fmt.Fprintf(os.Stderr, "DEBUG ensures of %s: %s\n   => %s\n", cname, en.Text, ex.ts.Show(t))
+		}
+		ex.assume(t)
 	}
 	ex.callSiteAssumptions(fr, ins, cname, args, res, old)
 	return res
@@ -597,6 +602,14 @@ func (ex *Exec) evalAddr(e *Expr, env *Env) Val {
 			base = ex.evalAddr(e.Args[0], env)
 		}
 		l := ex.resolve(base)
+		for k := 0; k < 3; k++ {
+			// automatic dereference: a location that holds a pointer designates the pointee for field selection
+			if _, isPtr := under(l.Typ).(*types.Pointer); !isPtr {
+				break
+			}
+			base = ex.load(base)
+			l = ex.resolve(base)
+		}
 		path, _, ok := fieldIndex(l.Typ, e.Name)
 		if !ok {
 			unsup("modifies: no field %s in %s", e.Name, l.Typ)
@@ -932,9 +945,27 @@ func (ex *Exec) checkPost(fr *Frame, rv []Val, ins *ssa.Return) {
 			unsup("ghostdef: left side must be a ghost field")
 		}
 		ex.havocTarget(lhsE, env, "ghostdef")
-		val := ex.softBool(rhsE, env)
-		cur := ex.asBool(ex.eval(lhsE, env))
-		ex.assume(ex.ts.Eq(cur, val))
+		if kind, _ := ex.ghostSort(lhsE.Name); kind == "bool" {
+			val := ex.softBool(rhsE, env)
+			cur := ex.asBool(ex.eval(lhsE, env))
+			ex.assume(ex.ts.Eq(cur, val))
+		} else {
+			func() {
+				// an integer ghost: undefined (left arbitrary) on return paths where the defining expression has no value
+				defer func() {
+					if r := recover(); r != nil {
+						if _, isU := r.(unsupported); !isU {
+							panic(r)
+						}
+					}
+				}()
+				val := ex.evalInt(rhsE, env)
+				cur := ex.evalInt(lhsE, env)
+				if val.S == cur.S {
+					ex.assume(ex.ts.Eq(cur, val))
+				}
+			}()
+		}
 	}
 	for i, en := range c.Ensures {
 		name := fmt.Sprintf("%03d", i)
